@@ -351,9 +351,10 @@ func (f *File) Name() string { return f.name }
 func (f *File) Fd() uintptr  { return f.fd }
 
 type fileInfo struct {
-	name string
-	size int64
-	mode FileMode
+	name  string
+	size  int64
+	mode  FileMode
+	nlink int
 }
 
 func (fi fileInfo) Name() string       { return fi.name }
@@ -361,7 +362,20 @@ func (fi fileInfo) Size() int64        { return fi.size }
 func (fi fileInfo) Mode() FileMode     { return fi.mode }
 func (fi fileInfo) ModTime() time.Time { return time.Unix(1700000000, 0) }
 func (fi fileInfo) IsDir() bool        { return fi.mode&ModeDir != 0 }
-func (fi fileInfo) Sys() interface{}   { return nil }
+func (fi fileInfo) Sys() interface{} {
+	return &syscall.Stat_t{Nlink: uint64(fi.nlink), Size: fi.size, Mode: uint32(fi.mode.Perm())}
+}
+
+// nlink counts the names of a node (hard links).
+func (w *World) nlink(n *Node) int {
+	k := 0
+	for _, m := range w.Nodes {
+		if m == n {
+			k++
+		}
+	}
+	return k
+}
 
 func pathErr(op, p string, e error) error { return &PathError{Op: op, Path: p, Err: e} }
 
@@ -379,7 +393,7 @@ func stat(op, name string, follow bool) (FileInfo, error) {
 		return nil, pathErr(op, name, syscall.ENOENT)
 	}
 	w.log(OpRec{Kind: op, Path: name, Task: w.task()})
-	return fileInfo{name: path.Base(name), size: int64(len(n.Data)), mode: n.Mode}, nil
+	return fileInfo{name: path.Base(name), size: int64(len(n.Data)), mode: n.Mode, nlink: w.nlink(n)}, nil
 }
 
 func Stat(name string) (FileInfo, error)  { return stat("stat", name, true) }
@@ -481,7 +495,7 @@ func (f *File) Stat() (FileInfo, error) {
 		return nil, pathErr("stat", f.name, syscall.EIO)
 	}
 	w.log(OpRec{Kind: "fstat", Path: f.name, Task: w.task()})
-	return fileInfo{name: path.Base(f.name), size: int64(len(f.node.Data)), mode: f.node.Mode}, nil
+	return fileInfo{name: path.Base(f.name), size: int64(len(f.node.Data)), mode: f.node.Mode, nlink: w.nlink(f.node)}, nil
 }
 
 func (f *File) Read(p []byte) (int, error) {
@@ -719,6 +733,20 @@ func (w *World) Symlink(name, target string) {
 	w.Nodes[clean(name)] = &Node{Mode: ModeSymlink | 0o777, Target: target}
 }
 
+// Link gives the file target a second name (hard link): both names refer to
+// the same node.
+func (w *World) Link(name, target string) {
+	if n := w.Nodes[clean(target)]; n != nil {
+		w.Nodes[clean(name)] = n
+	}
+}
+
+// SameNode reports whether two names refer to one node.
+func (w *World) SameNode(a, b string) bool {
+	n := w.Nodes[clean(a)]
+	return n != nil && n == w.Nodes[clean(b)]
+}
+
 // Names lists the paths of the world in order.
 func (w *World) Names() []string {
 	var out []string
@@ -739,8 +767,12 @@ func (w *World) Clone() *World {
 	c.TTY = w.TTY
 	c.StdoutKind = w.StdoutKind
 	c.Stdin = w.Stdin
+	seen := map[*Node]*Node{}
 	for k, n := range w.Nodes {
-		c.Nodes[k] = &Node{Data: append([]byte(nil), n.Data...), Mode: n.Mode, Target: n.Target}
+		if seen[n] == nil {
+			seen[n] = &Node{Data: append([]byte(nil), n.Data...), Mode: n.Mode, Target: n.Target}
+		}
+		c.Nodes[k] = seen[n] // hard links stay hard links
 	}
 	return c
 }
